@@ -292,6 +292,7 @@ func e1ModeFor(prop string) E1Mode {
 		m.MaxRPCs, m.Byz, m.MetaP, m.ErrP = 4, 1.0, 0.4, 0.3
 	case "C18":
 		m.MaxRPCs, m.MetaP, m.ErrP, m.CancelP, m.Duplex = 4, 0.4, 0.3, 0.2, 0.3
+		m.Misbehave = 0.3
 	}
 	return m
 }
@@ -716,7 +717,9 @@ func (g *e1gen) rpc(idx int) *RPCSpec {
 	if g.chance(m.MetaP) {
 		r.HasMeta = true
 		r.Meta = g.meta(idx)
-		switch r.MetaStyle = g.weighted(5, 3, 1, 2); r.MetaStyle {
+		switch r.MetaStyle = g.weighted(5, 3, 1, 2, 1); r.MetaStyle {
+		case 4:
+			r.Meta["ovr"] = fmt.Sprintf("fresh value of rpc %d", idx)
 		case 3:
 			// per task, each call derives its context from the previous call's
 			// context and adds at most two pairs (drpcmetadata.Add writes into the
